@@ -12,6 +12,7 @@ package varmq
 // every other goroutine has parked, blocked or ended.
 
 import (
+	"encoding/json"
 	"sort"
 	"bytes"
 	"fmt"
@@ -67,6 +68,15 @@ type gate struct {
 	proj     func() map[string]any // state projection, set by the episode
 	jobKey   func(any) int         // job object -> key
 	internal bool                  // log internal hook events (gated mode)
+	sink     *json.Encoder         // every event is also written out at once: what survives a crash of the process
+}
+
+// logEvent appends to the log (g.mu held) and to the live sink
+func (g *gate) logEvent(e event) {
+	g.log = append(g.log, e)
+	if g.sink != nil {
+		g.sink.Encode(e)
+	}
 }
 
 func newGate(gated bool) *gate {
@@ -105,7 +115,7 @@ func (g *gate) emit(p string, ev string, kv ...any) {
 	}
 	g.mu.Lock()
 	e["seq"] = g.seq.Add(1)
-	g.log = append(g.log, e)
+	g.logEvent(e)
 	g.mu.Unlock()
 }
 
@@ -150,7 +160,7 @@ func (g *gate) hook(label string, args ...any) {
 	if g.proj != nil {
 		e["st"] = g.proj()
 	}
-	g.log = append(g.log, e)
+	g.logEvent(e)
 	if logOnly[label] {
 		g.mu.Unlock()
 		return
@@ -225,7 +235,7 @@ func (g *gate) point(label string, kv ...any) {
 	if g.gated && g.proj != nil {
 		e["st"] = g.proj()
 	}
-	g.log = append(g.log, e)
+	g.logEvent(e)
 	if !g.gated || p == nil {
 		g.mu.Unlock()
 		return
@@ -252,7 +262,7 @@ func (g *gate) note(label string, kv ...any) {
 	for i := 0; i+1 < len(kv); i += 2 {
 		e[kv[i].(string)] = kv[i+1]
 	}
-	g.log = append(g.log, e)
+	g.logEvent(e)
 	g.mu.Unlock()
 }
 
@@ -413,7 +423,7 @@ func (g *gate) noteAt(seq int64, label string, kv ...any) {
 	for i := 0; i+1 < len(kv); i += 2 {
 		e[kv[i].(string)] = kv[i+1]
 	}
-	g.log = append(g.log, e)
+	g.logEvent(e)
 	g.mu.Unlock()
 }
 
